@@ -229,10 +229,13 @@ def finish_hist(prop, profile, tier, verif_seed, all_runs, harness_errors, state
             expected=dict(step=(mn["violation"] if mn and mn.get("violation") else v).get("step"), oracle=v["oracle"], property=prop, what=v["what"]),
             original=dict(n_steps=r.get("n_steps"), what=v["what"], features=v.get("features")),
             minimised=bool(mn),
+            reproducible_on_immediate_rerun=r.get("reproducible"),
         )
         path = write_replay(prop, r["seed"], payload)
         out_lines.append(f"VIOLATION property={prop} replay={path}")
         out_lines.append(f"  oracle={v['oracle']} op={v.get('op')} seed={r['seed']} steps={len(payload['steps'] or [])}: {v['what'][:300]}")
+        if r.get("reproducible") is False:
+            out_lines.append("  NOTE: the same seed did NOT reproduce this on an immediate re-run in the same interpreter: nondeterminism (see DESIGN.md 12.1 for the two cases met so far, both in the library)")
     for k, n in (extra_known or {}).items():
         known_hits[k] += n
     for f in findings:
